@@ -427,7 +427,19 @@ char *fgets(char *buf, int size, FILE *fp)
     return buf;
 }
 int fseek(FILE *fp, long off, int wh) { __CPROVER_assert(fp != NULL, "fseek: stream not NULL"); return nondet_bool() ? 0 : -1; }
-long ftell(FILE *fp) { __CPROVER_assert(fp != NULL, "ftell: stream not NULL"); long r = nondet_long(); __CPROVER_assume(r >= -1); return r; }
+long ftell(FILE *fp)
+{
+    __CPROVER_assert(fp != NULL, "ftell: stream not NULL");
+    long r = nondet_long();
+#ifdef VERIF_FTELL_REGULAR_SMALL
+    /* ASSUMES (unit C11.builtin_exec): the stream is the regular file mkstemp just created, so ftell succeeds,
+     * and the command wrote less than 4 GiB - 1 bytes (see the unit's comment on `fsize + 1`) */
+    __CPROVER_assume(r >= 0 && r < 0xffffffffL);
+#else
+    __CPROVER_assume(r >= -1);
+#endif
+    return r;
+}
 void rewind(FILE *fp) { __CPROVER_assert(fp != NULL, "rewind: stream not NULL"); }
 size_t fread(void *p, size_t sz, size_t n, FILE *fp)
 {
